@@ -23,6 +23,12 @@ type Profile struct {
 	IterOpsMax int
 	// Opt tweaks the drawn options.
 	Opt func(t *rapid.T, o *OptPlan)
+	// Alt / AltPct: in AltPct percent of the cases the plan is drawn from one of
+	// the alternative profiles instead (the check's oracle and non-triviality
+	// rule stay the same): a check whose property every history must satisfy
+	// also explores the history shapes other checks were built around.
+	Alt    []Profile
+	AltPct int
 	// BlobIngestPct: percentage of ingestions whose tables are reduced to point
 	// sets and written with separated values (external blob files).
 	BlobIngestPct int
@@ -1028,6 +1034,11 @@ func GenOptions(t *rapid.T, p Profile) OptPlan {
 
 // Generate draws a complete plan for a profile.
 func Generate(t *rapid.T, p Profile) Plan {
+	if len(p.Alt) > 0 && rapid.IntRange(0, 99).Draw(t, "altprofile") < p.AltPct {
+		name := p.Name
+		p = p.Alt[rapid.IntRange(0, len(p.Alt)-1).Draw(t, "altprofilei")]
+		p.Name = name + "/" + p.Name
+	}
 	g := &gen{t: t, p: p, st: NewState(), sd: map[string]*sdState{}, efosRg: map[int][][2]string{},
 		iterOn: map[int]string{}, iterEf: map[int]int{}, ibOps: map[int][]Op{}}
 	g.opt = GenOptions(t, p)
